@@ -46,11 +46,22 @@ func (e *engine) finish(op *opRec, idx int) {
 		r.Logf("  done op%d append -> seq=%d %s", op.id, op.appended, errClass(op.err))
 		if op.err == nil {
 			r.Probe("append.acked")
+			e.acked[op.msgID] = true
+			if e.c.quorum {
+				r.Probe("quorum.commit_acked")
+			}
 		} else {
 			r.Probe("append.err." + errClass(op.err))
 		}
 	case "applymeta":
 		r.Logf("  done op%d applymeta -> %s", op.id, errClass(op.err))
+		if e.c.quorum && op.hasMeta && op.meta.Leader == op.node {
+			if op.err == nil {
+				r.Probe("quorum.install_ok")
+			} else {
+				r.Probe("quorum.install_err." + errClass(op.err))
+			}
+		}
 	case "retention":
 		a := op.applyRes
 		r.Logf("  done op%d retention through=%d -> %s local=%d physical=%d deleted=%d(through %d) more=%v blocked=%q", op.id, op.through, errClass(op.err),
